@@ -208,9 +208,17 @@ type c09ctx struct {
 	paramSeen map[*ssa.Parameter]int
 	paramK    map[*ssa.Parameter]KindSet
 	postNonNil map[*ssa.Function]int // 0 unknown, 1 yes, 2 no
+	postAlways map[*ssa.Function]bool
 	// helpers that can only run as static calls from analysed functions and could not be discharged on their own:
 	// interpreted in place in each caller (their sites are judged with the caller's facts)
 	inlined map[*ssa.Function]bool
+	ctxOnly map[*ssa.Function]bool
+	// interprocedural facts about parameters of helpers all of whose callers are analysed: a lower bound of len(p), p != nil
+	paramLen    map[*ssa.Parameter]int64
+	paramLenIn  map[*ssa.Parameter]int64
+	paramNN     map[*ssa.Parameter]bool
+	paramNNIn   map[*ssa.Parameter]bool
+	optimistic  bool // first collecting round: recursive call sites are skipped (their facts are checked in the next rounds under the assumption)
 }
 
 func (c *c09ctx) site(ins ssa.Instruction, kind, name string) *siteRes {
@@ -407,7 +415,7 @@ func (c *c09ctx) analyseFunc(fn *ssa.Function) {
 				}
 			}
 			ok, why := true, ""
-			n := minLen(st, bs, 0)
+			n := c.minLenP(st, bs)
 			if x.Low != nil {
 				b, o := linear(symOf(x.Low))
 				if !(b == "" && o >= 0 && o <= n) {
@@ -468,7 +476,7 @@ func (c *c09ctx) analyseFunc(fn *ssa.Function) {
 				return
 			}
 			fs := ev.FnSym
-			nonnil := definitelyNonNil(fs)
+			nonnil := definitelyNonNil(fs) || c.nonNil(st, fs)
 			if !nonnil {
 				if eq, ok := evalEq(st, fs, nilSym()); ok && !eq {
 					nonnil = true
@@ -507,11 +515,28 @@ func (c *c09ctx) analyseFunc(fn *ssa.Function) {
 			return
 		}
 		callee := ev.Callee
-		if callee != nil && prog.InModule(callee) && c.collect {
+		if callee != nil && prog.InModule(callee) && c.collect && !ev.Inlined && !(c.optimistic && callee == f) {
 			for i, p := range callee.Params {
-				if i < len(ev.Args) && (isReflectValue(p.Type()) || isReflectType(p.Type())) {
+				if i >= len(ev.Args) {
+					continue
+				}
+				if isReflectValue(p.Type()) || isReflectType(p.Type()) {
 					c.paramIn[p] |= c.ke.kinds(st, ev.Args[i])
 					c.paramSeen[p]++
+				}
+				if _, isSlice := p.Type().Underlying().(*types.Slice); isSlice {
+					l := c.minLenP(st, ev.Args[i])
+					if cur, seen := c.paramLenIn[p]; !seen || l < cur {
+						c.paramLenIn[p] = l
+					}
+				}
+				switch p.Type().Underlying().(type) {
+				case *types.Signature, *types.Pointer, *types.Map:
+					nn := c.nonNil(st, ev.Args[i])
+					if cur, seen := c.paramNNIn[p]; seen {
+						nn = nn && cur
+					}
+					c.paramNNIn[p] = nn
 				}
 			}
 		}
@@ -622,7 +647,18 @@ func shortDesc(v ssa.Value) string {
 }
 
 func (c *c09ctx) indexOK(st *pstate, base, idx *Sym) (bool, string) {
-	n := minLen(st, base, 0)
+	n := c.minLenP(st, base)
+	if base.T != nil {
+		if sl, ok := staticLen(base.T, base); ok {
+			n = sl
+			// a fixed-size array: 0 ≤ idx < len by the ordering facts of the path
+			if lowerBoundNonNeg(st, idx) {
+				if v, ok := evalBool(st, &Sym{K: sCmp, Op: token.LSS, A: idx, B: &Sym{K: sConst, C: constant.MakeInt64(sl)}}); ok && v {
+					return true, ""
+				}
+			}
+		}
+	}
 	b, o := linear(idx)
 	lk := (&Sym{K: sLen, A: base}).Key()
 	switch {
@@ -759,7 +795,26 @@ func lowerBoundNonNeg(st *pstate, idx *Sym) bool {
 	if v, ok := evalBool(st, &Sym{K: sCmp, Op: token.GEQ, A: idx, B: &Sym{K: sConst, C: constant.MakeInt64(0)}}); ok && v {
 		return true
 	}
+	// unsigned values
+	if idx.T != nil {
+		if bt, ok := idx.T.Underlying().(*types.Basic); ok && bt.Info()&types.IsUnsigned != 0 {
+			return true
+		}
+	}
 	return false
+}
+
+// minLenP: minLen, plus the lower bound every call site establishes for a slice parameter.
+func (c *c09ctx) minLenP(st *pstate, x *Sym) int64 {
+	m := minLen(st, x, 0)
+	if x.K == sParam {
+		if p, ok := x.V.(*ssa.Parameter); ok {
+			if v, ok := c.paramLen[p]; ok && v > m {
+				m = v
+			}
+		}
+	}
+	return m
 }
 
 func (c *c09ctx) reflectIndexOK(st *pstate, recv, idx *Sym) (bool, string) {
@@ -1073,7 +1128,14 @@ var nonNilWhenErrNil = map[string]bool{"regexp.Compile": true, "regexp.CompilePO
 
 func (c *c09ctx) nonNil(st *pstate, b *Sym) bool {
 	switch b.K {
-	case sFresh, sFieldAddr, sIndexAddr, sGlobal, sParam, sFree, sClosure, sMkIface, sFunc:
+	case sParam:
+		// a function-typed parameter is the callers' obligation only if every caller is known to meet it
+		if _, isFn := b.T.Underlying().(*types.Signature); isFn {
+			p, _ := b.V.(*ssa.Parameter)
+			return p != nil && c.paramNN[p]
+		}
+		return true
+	case sFresh, sFieldAddr, sIndexAddr, sGlobal, sFree, sClosure, sMkIface, sFunc:
 		return true
 	}
 	if eq, ok := evalEq(st, b, nilSym()); ok && !eq {
@@ -1081,6 +1143,12 @@ func (c *c09ctx) nonNil(st *pstate, b *Sym) bool {
 	}
 	if fn, _ := calleeOfSym(b); isReflectMethod(fn, "MapRange") {
 		return true // MapRange returns a non-nil iterator
+	}
+	if fn, _ := calleeOfSym(b); fn != nil && fn.Pkg != nil && alwaysNonNil[fn.Pkg.Pkg.Path()+"."+fn.Name()] {
+		return true
+	}
+	if fn, _ := calleeOfSym(b); fn != nil && c.prog.InModule(fn) && b.K == sCall && c.moduleAlwaysNonNil(fn) {
+		return true
 	}
 	if b.K == sRes && b.Idx == 0 {
 		if fn, _ := calleeOfSym(b.A); fn != nil && c.prog.InModule(fn) && c.moduleNonNilWhenErrNil(fn) {
@@ -1097,6 +1165,37 @@ func (c *c09ctx) nonNil(st *pstate, b *Sym) bool {
 		}
 	}
 	return false
+}
+
+// external functions whose (single) result is never nil
+var alwaysNonNil = map[string]bool{"github.com/mitchellh/pointerstructure.Parent": true}
+
+// moduleAlwaysNonNil: a module function with one result, every return of which is proven non-nil.
+func (c *c09ctx) moduleAlwaysNonNil(fn *ssa.Function) bool {
+	key := fn
+	if v, ok := c.postAlways[key]; ok {
+		return v
+	}
+	if c.postAlways == nil {
+		c.postAlways = map[*ssa.Function]bool{}
+	}
+	c.postAlways[key] = false
+	if fn.Signature.Results().Len() != 1 || len(fn.Blocks) == 0 {
+		return false
+	}
+	ps := NewPathSim(c.prog)
+	ok, n := true, 0
+	for _, sm := range ps.Run(fn) {
+		if sm.Ret == nil || len(sm.Results) != 1 {
+			continue
+		}
+		n++
+		if !c.nonNil(sm.St, sm.Results[0]) {
+			ok = false
+		}
+	}
+	c.postAlways[key] = ok && n > 0
+	return ok && n > 0
 }
 
 // moduleNonNilWhenErrNil: every return of the module function fn is (proven non-nil, nil error) or (·, non-nil error).
@@ -1141,6 +1240,11 @@ func (c *c09ctx) nilDeref(f *ssa.Function, st *pstate, ins ssa.Instruction, b *S
 		return // locals, addresses, parameters (callers' obligation), asserted tree nodes
 	}
 	name := f.Name() + ":deref:" + shortDesc(v)
+	if b.K == sLoad && b.A.K == sFree {
+		if fv, ok := b.A.V.(*ssa.FreeVar); ok && capturedParam(fv) {
+			return // a parameter of the enclosing function captured by the closure: the callers' obligation, as for the parameter itself
+		}
+	}
 	if eq, ok := evalEq(st, b, nilSym()); ok && !eq {
 		c.record(ins, "nil-deref", name, true, "", st)
 		return
@@ -1171,7 +1275,8 @@ func checkPanicSites(r *Run, prog *Program, a *Anchors, pfx string, roots map[*s
 		}
 	}
 	c := &c09ctx{r: r, prog: prog, a: a, kt: kt, pfx: pfx, sites: map[ssa.Instruction]*siteRes{}, cmpSet: map[*ssa.Function]bool{}, needsValue: map[*ssa.Function][]string{},
-		paramIn: map[*ssa.Parameter]KindSet{}, paramSeen: map[*ssa.Parameter]int{}, paramK: map[*ssa.Parameter]KindSet{}, postNonNil: map[*ssa.Function]int{}, inlined: map[*ssa.Function]bool{}}
+		paramIn: map[*ssa.Parameter]KindSet{}, paramSeen: map[*ssa.Parameter]int{}, paramK: map[*ssa.Parameter]KindSet{}, postNonNil: map[*ssa.Function]int{}, inlined: map[*ssa.Function]bool{}, ctxOnly: map[*ssa.Function]bool{},
+		paramLen: map[*ssa.Parameter]int64{}, paramNN: map[*ssa.Parameter]bool{}}
 	c.ke = &kindEnv{prog: prog}
 	c.ke.litKinds = c.coerceKindsOf
 	c.ke.paramKinds = func(p *ssa.Parameter) (KindSet, bool) {
@@ -1213,70 +1318,119 @@ func checkPanicSites(r *Run, prog *Program, a *Anchors, pfx string, roots map[*s
 		}
 	}
 	sort.Slice(fns, func(i, j int) bool { return fns[i].String() < fns[j].String() })
-	// two collecting rounds propagate the kinds of reflect-typed arguments into the parameters of unexported helpers
-	// whose every caller is a static call from an analysed function (otherwise the parameter stays ⊤)
-	hasReflectParam := false
-	for f := range roots {
-		for _, p := range f.Params {
-			if (isReflectValue(p.Type()) || isReflectType(p.Type())) && !c.cmpSet[f] {
-				isMatcher := false
-				for _, m := range a.Matchers {
-					if m == f {
-						isMatcher = true
-					}
-				}
-				if !isMatcher {
-					hasReflectParam = true
-				}
+	// Collecting rounds propagate facts about arguments into the parameters of unexported helpers whose every caller is a
+	// static call from an analysed function (otherwise the parameter stays unconstrained): the kinds of reflect-typed
+	// arguments, a lower bound of the length of slice arguments, non-nil-ness of function/pointer/map arguments. The first
+	// round skips recursive call sites; the following rounds check them under the facts assumed so far (induction on the
+	// call depth) and only ever weaken the facts, until they are stable.
+	callersKnown := func(fn *ssa.Function) bool {
+		if o := fn.Object(); o != nil && o.Exported() {
+			return false
+		}
+		n := prog.CG.Nodes[fn]
+		if n == nil || len(n.In) == 0 {
+			return false
+		}
+		for _, e := range n.In {
+			if e.Site == nil || e.Site.Common().StaticCallee() != fn || !roots[e.Caller.Func] {
+				return false
 			}
 		}
+		return true
 	}
-	for round := 0; hasReflectParam && round < 2; round++ {
+	for round := 0; round < 4; round++ {
 		c.collect = true
+		c.optimistic = round == 0
 		c.paramIn = map[*ssa.Parameter]KindSet{}
 		c.paramSeen = map[*ssa.Parameter]int{}
+		c.paramLenIn = map[*ssa.Parameter]int64{}
+		c.paramNNIn = map[*ssa.Parameter]bool{}
 		for _, f := range fns {
 			c.analyseFunc(f)
 		}
 		c.collect = false
-		next := map[*ssa.Parameter]KindSet{}
+		nextK := map[*ssa.Parameter]KindSet{}
+		nextL := map[*ssa.Parameter]int64{}
+		nextN := map[*ssa.Parameter]bool{}
 		for p, k := range c.paramIn {
-			fn := p.Parent()
-			// every caller must have been seen: all call-graph in-edges are static calls from analysed functions
-			okAll := fn.Object() == nil || !fn.Object().Exported()
-			if n := prog.CG.Nodes[fn]; n != nil && okAll {
-				for _, e := range n.In {
-					if e.Site == nil || e.Site.Common().StaticCallee() != fn || !roots[e.Caller.Func] {
-						okAll = false
-					}
-				}
-			}
-			if okAll {
-				next[p] = k
+			if callersKnown(p.Parent()) {
+				nextK[p] = k
 			}
 		}
-		c.paramK = next
+		for p, l := range c.paramLenIn {
+			if l > 0 && callersKnown(p.Parent()) {
+				nextL[p] = l
+			}
+		}
+		for p, nn := range c.paramNNIn {
+			if nn && callersKnown(p.Parent()) {
+				nextN[p] = true
+			}
+		}
+		stable := round > 0 && len(nextK) == len(c.paramK) && len(nextL) == len(c.paramLen) && len(nextN) == len(c.paramNN)
+		if stable {
+			for p, k := range nextK {
+				if c.paramK[p] != k {
+					stable = false
+				}
+			}
+			for p, l := range nextL {
+				if c.paramLen[p] != l {
+					stable = false
+				}
+			}
+			for p := range nextN {
+				if !c.paramNN[p] {
+					stable = false
+				}
+			}
+		}
+		c.paramK, c.paramLen, c.paramNN = nextK, nextL, nextN
+		if stable {
+			break
+		}
+		if round == 3 {
+			// not stable: keep only what needs no assumption
+			c.paramLen, c.paramNN = map[*ssa.Parameter]int64{}, map[*ssa.Parameter]bool{}
+		}
 	}
+	c.optimistic = false
 	for round := 0; ; round++ {
 		for _, f := range fns {
-			if !c.inlined[f] {
+			if !c.ctxOnly[f] {
 				c.analyseFunc(f)
 			}
 		}
 		if round == 3 {
 			break
 		}
-		// helpers with undischarged sites whose every caller is a static call from an analysed function: judge them in context
 		more := false
 		for ins, s := range c.sites {
 			f := ins.Parent()
-			if len(s.fails) == 0 || c.inlined[f] || c.cmpSet[f] {
+			if len(s.fails) == 0 || c.cmpSet[f] {
 				continue
 			}
-			if prog.contextOnly(f, func(x *ssa.Function) bool { return roots[x] }) {
-				c.inlined[f] = true
+			// (a) a helper that can only run as a static call from analysed functions: judge its sites in the context of its callers
+			if !c.ctxOnly[f] && prog.contextOnly(f, func(x *ssa.Function) bool { return roots[x] }) {
+				c.ctxOnly[f], c.inlined[f] = true, true
 				more = true
 				r.Note("%s: its sites are judged in the context of its callers (interpreted in place)", f.Name())
+			}
+			// (b) the fact that would discharge the site may be established inside a helper the function calls (a validation
+			// helper returning an error, a constructor): interpret the function's module callees in place
+			for _, b := range f.Blocks {
+				for _, i2 := range b.Instrs {
+					call, ok := i2.(*ssa.Call)
+					if !ok {
+						continue
+					}
+					g := call.Call.StaticCallee()
+					if g == nil || g == f || c.inlined[g] || !bexprHelperOrGrammar(prog, a, g) || isBoolErr(g.Signature) || recursive(prog, g) {
+						continue
+					}
+					c.inlined[g] = true
+					more = true
+				}
 			}
 		}
 		if !more {
@@ -1292,7 +1446,7 @@ func checkPanicSites(r *Run, prog *Program, a *Anchors, pfx string, roots map[*s
 		// iteration counts
 		c.havoc = true
 		for _, f := range fns {
-			if !c.inlined[f] {
+			if !c.ctxOnly[f] {
 				c.analyseFunc(f)
 			}
 		}
@@ -1423,4 +1577,93 @@ func init() {
 		r.Explain = "Part (i): every return of every (bool, error) function reachable from Evaluate has a nil error, a false boolean, or forwards the pair of another function of the set (induction over the call structure). Part (ii): every panic-capable instruction in the module functions reachable from Evaluate (reflect calls with a kind/validity/type precondition, single-value type assertions, index/slice expressions, pointer dereferences, dynamic calls, explicit panics, integer divisions, map stores) is enumerated and must be discharged on every explored path by the facts established there; comparators are discharged by agreement of the two kind tables plus a per-call-site proof that the comparator was chosen from the kind of the very value it is applied to. NOT decided: panics inside dependencies and user hooks, stack exhaustion."
 		r.Assume = append(r.Assume, "reflect's documented panic preconditions (spec.go)", "syntax-tree node pointers and child links are non-nil for parser-built trees (C10/C15 result types)", "pointerstructure/regexp/strconv/fmt/errors/strings do not panic on any argument")
 	})
+}
+
+// bexprHelperOrGrammar: an unexported, non-anchor function of the module (either package) with a body.
+func bexprHelperOrGrammar(prog *Program, a *Anchors, g *ssa.Function) bool {
+	if bexprHelper(prog, a, g) {
+		return true
+	}
+	if !prog.InModule(g) || len(g.Blocks) == 0 || g.Parent() != nil {
+		return false
+	}
+	if o := g.Object(); o != nil && o.Exported() {
+		return false
+	}
+	return fnPkg(g) == prog.Grammar.Types
+}
+
+// recursive: fn can reach itself in the call graph (bounded search inside the module).
+func recursive(prog *Program, fn *ssa.Function) bool {
+	seen := map[*ssa.Function]bool{}
+	var walk func(f *ssa.Function, depth int) bool
+	walk = func(f *ssa.Function, depth int) bool {
+		if depth > 12 {
+			return true
+		}
+		n := prog.CG.Nodes[f]
+		if n == nil {
+			return false
+		}
+		for _, e := range n.Out {
+			g := e.Callee.Func
+			if g == fn {
+				return true
+			}
+			if seen[g] || !prog.InModule(g) {
+				continue
+			}
+			seen[g] = true
+			if walk(g, depth+1) {
+				return true
+			}
+		}
+		return false
+	}
+	return walk(fn, 0)
+}
+
+// capturedParam: the free variable is a by-reference capture of a variable of the enclosing function that holds one of its
+// parameters and is never assigned again.
+func capturedParam(fv *ssa.FreeVar) bool {
+	fn := fv.Parent()
+	if fn == nil || fn.Parent() == nil {
+		return false
+	}
+	idx := -1
+	for i, x := range fn.FreeVars {
+		if x == fv {
+			idx = i
+		}
+	}
+	if idx < 0 {
+		return false
+	}
+	found := false
+	for _, b := range fn.Parent().Blocks {
+		for _, ins := range b.Instrs {
+			mc, ok := ins.(*ssa.MakeClosure)
+			if !ok || mc.Fn != ssa.Value(fn) || idx >= len(mc.Bindings) {
+				continue
+			}
+			al, ok := mc.Bindings[idx].(*ssa.Alloc)
+			if !ok || al.Referrers() == nil {
+				return false
+			}
+			stores := 0
+			for _, r := range *al.Referrers() {
+				if st, ok := r.(*ssa.Store); ok && st.Addr == ssa.Value(al) {
+					stores++
+					if _, isParam := st.Val.(*ssa.Parameter); !isParam {
+						return false
+					}
+				}
+			}
+			if stores != 1 {
+				return false
+			}
+			found = true
+		}
+	}
+	return found
 }
